@@ -120,7 +120,32 @@ func serve(n *node, t *Task) {
 	if plan.Body != "" {
 		body = &chunkReader{data: []byte(plan.Body), chunks: plan.Chunks, quiet: n.engine == "fiber"}
 	}
-	req := httptest.NewRequest(plan.Verb, "http://sim.local"+plan.URL, body)
+	target, ctype := plan.URL, plan.CType
+	var extraHeader bool
+	for _, q := range plan.Quirks {
+		switch q {
+		case "ctype-charset":
+			if ctype != "" {
+				ctype += "; charset=utf-8"
+			}
+		case "extra-query":
+			if strings.Contains(target, "?") {
+				target += "&zz_unrelated=1"
+			} else {
+				target += "?zz_unrelated=1"
+			}
+		case "extra-header":
+			extraHeader = true
+		case "no-ctype":
+			ctype = ""
+		case "dup-query-same":
+			// the first scalar query parameter once more, with the same value
+			if plan.DupQuery != "" {
+				target += "&" + plan.DupQuery
+			}
+		}
+	}
+	req := httptest.NewRequest(plan.Verb, "http://sim.local"+target, body)
 	if plan.Body != "" {
 		req.ContentLength = int64(len(plan.Body))
 		if plan.UnknownLength {
@@ -134,8 +159,11 @@ func serve(n *node, t *Task) {
 		req = req.WithContext(ctx)
 	}
 	req.Header.Set("X-Sim-Req", plan.ID)
-	if plan.CType != "" {
-		req.Header.Set("Content-Type", plan.CType)
+	if ctype != "" {
+		req.Header.Set("Content-Type", ctype)
+	}
+	if extraHeader {
+		req.Header.Set("X-Zz-Unrelated", "1")
 	}
 	for _, h := range plan.Headers {
 		req.Header.Add(h[0], h[1])
@@ -772,6 +800,10 @@ func (j *judge) account(p *ReqPlan, outs map[string]Outcome, groupSize int) {
 	}
 	if len(p.Chunks) > 0 {
 		st.Faults["chunked-body"]++
+		nontrivial = true
+	}
+	for _, q := range p.Quirks {
+		st.Faults["client-"+q]++
 		nontrivial = true
 	}
 	if strings.HasPrefix(p.Class, "stray") {
